@@ -730,6 +730,14 @@ func handleConnectionBindRequest(req Request, stunMsg *stun.Message) error {
 		return buildAndSendErr(req.Conn, req.SrcAddr, err, badRequestMsg...)
 	}
 
+	// Only a stream connection can become a data connection. This is checked before
+	// the peer connection is taken: GetTCPConnection marks it bound and disarms its
+	// 30 second timer.
+	stunConn, ok := req.Conn.(*proto.STUNConn)
+	if !ok {
+		return buildAndSendErr(req.Conn, req.SrcAddr, err, badRequestMsg...)
+	}
+
 	// Authentication of the client by the server MUST use the same method
 	// and credentials as for the control connection.
 	//
@@ -739,16 +747,15 @@ func handleConnectionBindRequest(req Request, stunMsg *stun.Message) error {
 		return buildAndSendErr(req.Conn, req.SrcAddr, err, badRequestMsg...)
 	}
 
-	stunConn, ok := req.Conn.(*proto.STUNConn)
-	if !ok {
-		return buildAndSendErr(req.Conn, req.SrcAddr, err, badRequestMsg...)
-	}
-
 	if err = buildAndSend(req.Conn, req.SrcAddr, buildMsg(
 		stunMsg.TransactionID,
 		stun.NewType(stun.MethodConnectionBind, stun.ClassSuccessResponse),
 		connectionID,
 	)...); err != nil {
+		// The client is gone: nothing will ever be copied, and nothing else would
+		// close the peer connection before the allocation ends.
+		req.AllocationManager.RemoveTCPConnection(connectionID)
+
 		return err
 	}
 
